@@ -119,8 +119,15 @@ fn oracle(c: &Case, st: &mut Stats) -> Result<(), String> {
   }
   st.class_n("honest-tuples", honest.len() as u64);
 
+  // a degenerate but legal request: the identity as input point (its evaluation is the
+  // identity again).  Completeness is not demanded for it (a verifier may refuse identity
+  // points outright), soundness is: its proof must not verify for anything else.
+  let ident_pt = point_from(&RistrettoPoint::identity().compress().to_bytes());
+  let ident_ev = server.eval(&ident_pt, md, true).map_err(|e| format!("evaluation of the identity point: {e}"))?;
+  let mut bases: Vec<(Point, &Evaluation, u8, bool)> = vec![(honest[0].0.clone(), &honest[0].1, honest[0].2, true)];
+  bases.push((ident_pt.clone(), &ident_ev, md, false));
+  for (q, ev, m, must_verify) in bases.iter().map(|(q, e, m, v)| (q, *e, *m, *v)) {
   // soundness: exactly one component changed
-  let (q, ev, m) = (&honest[0].0, &honest[0].1, honest[0].2);
   let (cc, ss) = proof_scalars(ev.proof.as_ref().unwrap())?;
   let base = Tuple {
     pk: pkb.clone(),
@@ -130,8 +137,11 @@ fn oracle(c: &Case, st: &mut Stats) -> Result<(), String> {
     c: cc,
     s: ss,
   };
-  if verify_raw(&base)? != Some(true) {
+  if must_verify && verify_raw(&base)? != Some(true) {
     return Err("harness: the honest tuple rebuilt from raw components does not verify".into());
+  }
+  if !must_verify {
+    st.class("base=identity-input");
   }
   let other_ev = &honest[honest.len() - 1];
   let (oc, os) = proof_scalars(other_ev.1.proof.as_ref().unwrap())?;
@@ -247,8 +257,10 @@ fn oracle(c: &Case, st: &mut Stats) -> Result<(), String> {
     }
     tamper("bit flip in tag", mk(&|t| t.md ^= 1 << bit), st)?;
   }
+  }
+  let m = md;
   if st.want_sample() {
-    st.sample(json!({"tags": c.mds, "tag": m, "honest_tuples": honest.len(), "bit_positions": c.bits, "c": hex::encode(base.c.to_bytes()), "s": hex::encode(base.s.to_bytes())}));
+    st.sample(json!({"tags": c.mds, "tag": m, "honest_tuples": honest.len(), "bit_positions": c.bits}));
   }
   Ok(())
 }
